@@ -121,7 +121,7 @@ func walkKindsRule(R string) RuleFunc {
 			for k := range f.kinds {
 				kinds[k] = true
 			}
-			groupReason := walkTable[nm]
+			groupReason := walkTable[c.P.PinnedName(nm)]
 			for g := range reach(o, 3) {
 				if gf := funcs[g]; gf != nil && (g == o || reach(g, 3)[o]) {
 					for k := range gf.kinds {
